@@ -20,6 +20,12 @@ func H_C15_Merge() {
 	txs := genTxs(profile, vParam("ntx"), vParam("maxops"))
 	more := genTxs(profile, 1, 1)
 	keys := append(kvKeysOf(txs), kvKeysOf(more)...)
+	var seedTxs [][]*sOp
+	if vParam("seed") == 1 {
+		var sk [][]byte
+		seedTxs, sk = genSeed(profile)
+		keys = append(sk, keys...)
+	}
 	if crash && !vEngine() {
 		// native replay of a crash image: the expected state comes from a native twin
 		optT := vOptsFull(vDir(), mode, rw, rw, seg, false)
@@ -28,9 +34,7 @@ func H_C15_Merge() {
 			vFail("c16.open-twin")
 			return
 		}
-		if vParam("seed") == 1 {
-			keys = append(seedState(dbT, profile), keys...)
-		}
+		runTxs(dbT, seedTxs)
 		runTxs(dbT, txs)
 		o0 := observe(dbT, keys, structs)
 		dbT.Close()
@@ -56,12 +60,19 @@ func H_C15_Merge() {
 		vFail("c15.open")
 		return
 	}
-	if vParam("seed") == 1 {
-		keys = append(seedState(db, profile), keys...)
-	}
+	runTxs(db, seedTxs)
 	runTxs(db, txs)
 	o0 := observe(db, keys, structs)
 	vReach("c15.before-merge")
+	// known finding: Merge re-applies the pushes of a non-empty list (see known_findings.json)
+	listNonEmpty := false
+	for _, it := range o0 {
+		if len(it.tag) > 7 && it.tag[:7] == "lrange:" && len(it.seq) > 0 {
+			listNonEmpty = true
+		}
+	}
+	vKnown("KF-C15-list-merge-duplicates", listNonEmpty)
+	vKnown("KF-C16-list-merge-duplicates", listNonEmpty)
 	if crash {
 		vArm()
 		alive := vTry(func() { _ = db.Merge() })
@@ -89,9 +100,7 @@ func H_C15_Merge() {
 		vFail("c15.open-twin")
 		return
 	}
-	if vParam("seed") == 1 {
-		seedState(dbB, profile)
-	}
+	runTxs(dbB, seedTxs)
 	runTxs(dbB, txs)
 	merr := db.Merge()
 	vObserveBool("merge-ok", merr == nil)
